@@ -113,6 +113,9 @@ def cases(draw, tier="quick"):
             mapping = [[known[0], "m0"]]
     if not mapping:
         mapping = [[known[0], "m0"]]
+    # the remapping is a dictionary: the order in which its pairs were inserted must not matter
+    if len(mapping) > 1:
+        mapping = [mapping[i] for i in draw(st.permutations(range(len(mapping))))]
     return {"records": recs, "mapping": mapping, "shape": shape, "build": draw(st.sampled_from(BUILD_MODES))}
 
 
@@ -178,6 +181,15 @@ def check(case, stats: Stats) -> None:
         raise Violation(f"remap_curie_prefixes({mapping!r}) raised undocumented {type(e).__name__}: {str(e)[:300]}") from e
     stats.cls("outcome:ok")
     got = dump_records(out)
+    if len(mapping) > 1:
+        # equal dictionaries filled in another order denote the same remapping
+        other = dict(reversed(list(mapping.items())))
+        try:
+            again = dump_records(curies.remap_curie_prefixes(conv, other))
+        except Exception as e:  # noqa: BLE001
+            raise Violation(f"remap_curie_prefixes accepts {mapping!r} but raises {type(e).__name__} for the same pairs inserted in reverse order") from e
+        if norm_records(again) != norm_records(got):
+            raise Violation(f"remap_curie_prefixes depends on the insertion order of the dictionary: {list(mapping.items())!r} gives {norm_records(got)!r}, reversed insertion gives {norm_records(again)!r}")
     if len(got) != len(recs):
         raise Violation(f"{len(recs)} records before, {len(got)} after remapping {mapping!r}")
     by_uri = {r["uri_prefix"]: r for r in got}
